@@ -487,6 +487,54 @@ def alias_task(t, res):
                 res.nontrivial(("alias", gen, shape, tuple(cell)))
 
 
+# ------------------------------------------------------------------ very long walks
+def _lcg_answers(n, seed=12345):
+    out, x = [], seed
+    for _ in range(n):
+        x = (x * 1103515245 + 12345) & 0x7FFFFFFF
+        out.append((x >> 16) % 4)
+    return out
+
+
+# after the bouncing phase the walk is released with a fixed irregular answer sequence (folded into the arity of each choice point)
+LONG_WALKS = [((2, 2), _lcg_answers(4000)), ((2, 3), _lcg_answers(4000, 777)), ((3, 3), _lcg_answers(6000, 4242))]
+
+
+def long_walk_task(t, res):
+    """single executions of gen_wilson far outside the depth the state graph is built to: the walk is made to bounce between two cells
+    for K steps (answer 0 at every step) and is then released. Members of the execution space with tiny but positive probability -
+    whatever a generator does about "walks that take too long", the result is still a spanning tree."""
+    which = t["which"]
+    oracle = oracle_c01 if which == "C01" else oracle_c12
+    old = CH.max_points
+    CH.max_points = 400_000
+    CH.scripted = True
+    try:
+        for shape, tail in LONG_WALKS:
+            for K in t["lengths"]:
+                res.ev()
+                rd = dict(kind="long_walk", which=which, shape=list(shape), K=K, lengths=[K])
+                keyp = f"{which}|gen_wilson|{shape[0]}x{shape[1]}||walk_of_more_than_{K}_steps"
+                try:
+                    with owned_rng():
+                        ex = explore.run_with([0] * K + tail, lambda: _call("gen_wilson", shape, {}))
+                except choice.HarnessError as e:
+                    if "choice points in one execution" in str(e):
+                        res.count("long_walks_not_released")
+                        continue  # the script did not bring this code to an end: nothing to judge
+                    raise
+                if ex.exc is not None:
+                    res.fail(f"{keyp}|exception|{type(ex.exc).__name__}", f"gen_wilson{shape} raised {type(ex.exc).__name__}: {str(ex.exc)[:200]} on a walk that bounces {K} steps", rd)
+                    continue
+                for suffix, msg in oracle("gen_wilson", shape, {}, ex.out):
+                    res.fail(f"{keyp}|{suffix}", f"gen_wilson{shape} after a walk that bounces between two cells for {K} steps and is then released: {msg}", rd)
+                res.nontrivial(("long_walk", shape, K))
+                res.count("long_walk_steps", len(ex.trace))
+    finally:
+        CH.max_points = old
+        CH.scripted = False
+
+
 def _timing(task, res, t_start):
     res.add("timing", (round(time.time() - t_start, 1), task["gen"], tuple(task["shape"]), task["mode"], len(task["kws"]),
                        task.get("rand", ""), res.counters.get("capped_tasks", 0)))
@@ -498,6 +546,9 @@ def _timing_and_unowned(task, res, t_start, unowned0):
 
 
 def replay_case(d, res, which):
+    if d.get("kind") == "long_walk":
+        long_walk_task(dict(which=d["which"], lengths=d["lengths"]), res)
+        return
     if d.get("kind") == "alias":
         alias_task(dict(which=d["which"]), res)
         return
